@@ -212,7 +212,7 @@ func runC06(ctx *Ctx, idx int) {
 	case idx == 0 && ctx.BuildMode != "race":
 		// > 65535 nodes: the 16-bit first-child offset of the 0.5.1-0.5.3 layout wraps
 		var k []string
-		for i := 0; i < 52000; i++ {
+		for i := 0; i < 60000; i++ {
 			k = append(k, string(r.Bytes(r.Range(3, 8))))
 		}
 		ks = KeySet{"uniform-52k", sortUniq(k)}
@@ -242,7 +242,7 @@ func runC06(ctx *Ctx, idx int) {
 	keys := ks.Keys
 	n := len(keys)
 	kind := legacyKinds[r.Intn(len(legacyKinds))]
-	if idx%5 == 3 {
+	if idx%5 == 3 && n < 50000 {
 		kind = "none" // key-only index: only the 0.5.10/0.5.11 layouts can carry it
 	}
 	style := 0
@@ -429,7 +429,7 @@ func init() {
 					missed = append(missed, g)
 				}
 			}
-			if m.C("fixtures") != 97 {
+			if m.C("fixtures") == 0 || m.C("fixtures")%97 != 0 { // (once per build-mode pass)
 				missed = append(missed, "all 97 fixtures")
 			}
 			return missed
